@@ -85,6 +85,49 @@ def run(ctx):
         kinds = [k for k, f, l in nodes if f is not None and f >= a and l <= b]
         if c["want"] not in kinds:
             viol("reading", "read as %s; a C compiler reads %s" % ([k for k in kinds[:3]], c["want"]))
+    # ---- the name-catalog model (Catalog.lean, theorem catalog_decision_is_C) <-> the real cataloger + syntax-correlation strategy,
+    # and both against C's scoping (the generator keeps the environment): random block-structured programs over a few names
+    from gen.cataloggen import CatalogGen
+    from .. import leanb
+    ncat = 150 if ctx.quick else 4000
+    cprogs = [CatalogGen(random.Random(ctx.seed * 100003 + j), names=2 + j % 4, size=10 + j % 40, maxdepth=2 + j % 4).program() for j in range(ncat)]
+    cmodel = leanb.model("catalog", "\n".join(i for _, i, _ in cprogs) + "\n")
+    ncatv = ncatc = namb = 0
+    for mode in (2, 1):
+        cimpl = stages.run_harness(ctx, "disambig", ["%s %s" % (opts(mode), t.encode().hex()) for t, _, _ in cprogs])
+        for (text, items, exp), o, m in zip(cprogs, cimpl, cmodel):
+            if not m.startswith("valid=1"):
+                raise RuntimeError("generator error: the catalog model calls a generated program invalid: %s / %s" % (items, m))
+            mdec = [w.split("/")[0] for w in m.split()[1:]]
+            mc = [w.split("/")[1] for w in m.split()[1:]]
+            if mc != exp:
+                raise RuntimeError("generator error: C's roles by the generator %s and by the Lean environment %s differ on %s" % (exp, mc, items))
+            if o.startswith(("CRASH", "HANG")):
+                viol_text = "the disambiguator did not complete on a catalog program: " + o[:200]
+                ctx.report("catalog-crash:" + items[:80], viol_text, {"component": "disambig", "case": "%s %s" % (opts(mode), text.encode().hex()), "text": text})
+                ncatv += 1
+                continue
+            cn = []
+            for w in o.partition("| diags=")[0].split():
+                k, f, l = w.rsplit(":", 2)
+                if k in ("CastExpression", "SubstractExpression") and f != "-":
+                    cn.append((int(f), k))
+            kinds = [k for _, k in sorted(cn)]
+            got = ["t" if k == "CastExpression" else "n" for k in kinds]
+            namb += len(exp)
+            if got != exp:
+                ncatv += 1
+                if ncatv <= 3:
+                    j = next((x for x in range(min(len(got), len(exp))) if got[x] != exp[x]), min(len(got), len(exp)))
+                    ctx.report("catalog:" + items[:80], "mode %s: ambiguity #%d of the program is read as %s; C's scoping makes the name a %s there.  Program:\n%s"
+                               % (MODES[mode], j + 1, (got + ["nothing"])[j], {"t": "typedef name (cast)", "n": "variable (subtraction)"}[exp[j]] if j < len(exp) else "?", text),
+                               {"component": "disambig", "case": "%s %s" % (opts(mode), text.encode().hex()), "text": text, "items": items})
+            if got != mdec:
+                ncatc += 1
+                if ncatc <= 3:
+                    ctx.report("corr-catalog:" + items[:80], "mode %s: readings of the real disambiguator %s differ from the decisions of the Lean catalog model %s on %s" % (MODES[mode], got, mdec, items),
+                               {"component": "disambig", "case": "%s %s" % (opts(mode), text.encode().hex()), "text": text, "theorem": "PsycheModel.Catalog.catalog_decision_is_C (correspondence)"}, no_input=True)
+    ctx.notes.update({"catalog_programs": ncat, "catalog_ambiguities": namb, "catalog_oracle_violations": ncatv, "catalog_model_disagreements": ncatc})
     ctx.cov.update({
         "evaluations": len(lines), "traces_validated_against_impl": len(lines), "distinct_nontrivial": len({(c["form"], c["ctx"], c["how"]) for c in cases}), "exhaustive": True,
         "rule": "every ambiguity form ((T) - x, (T) + x, (T) * x, (T) & x, (T) && x, (T[0]) - x, (T(1)) - x, sizeof(T[2]), sizeof(T), _Alignof(T), T * x;, T (x);, T ((x));) x every context (26 expression contexts: expression statements, initialisers, call arguments, subscripts, conditions, for clauses, return, switch, case labels, conditional/comma/binary/unary operands, array initialisers, VLA sizes, labelled and nested statements, static assertions; 9 statement contexts) x 10 ways of declaring the name (file/block typedef, struct typedef, file/block variable, parameter, typedef shadowed by variable/parameter, variable shadowed by typedef, enumerator) x the same spellings in another name space or in a scope that has ended (struct member before/after, tag, member access, label, prototype parameter, another function's parameter / local variable / local typedef; quick: a quarter of these variants) x shadowing redeclaration of the declared variable x the 4 disambiguation modes (complete cross product of the generator's tables)",
